@@ -26,6 +26,7 @@ type walDesc struct {
 	Recs  []walRec `json:"recs"`
 	Cut   int64    `json:"cut"` // -1: no cut
 	Recs2 []walRec `json:"recs2"`
+	Big   bool     `json:"big,omitempty"`
 }
 
 func (r walRec) payload() []byte {
@@ -253,6 +254,139 @@ func walCase(c *corr.Ctx, root string, b *walBase, d walDesc) (corr.Case, error)
 	return corr.Case{Coq: term, Nontrivial: torn || multi, Desc: d}, nil
 }
 
+// ---- records too large for literals: symbolic payloads (PP n s), see Corr/RunWal.v ----
+
+// plTerm prints a payload for a big case: PP n s only if EVERY byte equals the pattern.
+func plTerm(b []byte) string {
+	if len(b) > 24 {
+		ok := true
+		for i := range b {
+			if b[i] != byte(int(b[0])+i) {
+				ok = false
+				break
+			}
+		}
+		if ok {
+			return fmt.Sprintf("(PP %d %d)", len(b), b[0])
+		}
+		if len(b) > 4096 {
+			// a large payload that is NOT the pattern: report its length and a marker start byte
+			// that cannot match (the pattern start is < 256)
+			return fmt.Sprintf("(PP %d %d)", len(b), 256+int(b[0]))
+		}
+	}
+	return "(PH (H " + corr.Hex(b) + "))"
+}
+
+func bigRecsTerm(rs []walRec) string {
+	items := make([]string, len(rs))
+	for i, r := range rs {
+		if r.Hex == "" && r.N > 24 {
+			items[i] = fmt.Sprintf("(%d, (PP %d %d))", r.Ty, r.N, r.S%256)
+		} else {
+			items[i] = fmt.Sprintf("(%d, %s)", r.Ty, plTerm(r.payload()))
+		}
+	}
+	return corr.List(items)
+}
+
+func bigReplayObs(m *wal.Manager) string {
+	var items []string
+	err := m.Replay(func(info wal.EntryInfo, p []byte) error {
+		items = append(items, fmt.Sprintf("(%d, %d, %d, %s)", info.SegmentID, info.Offset, info.Type, plTerm(p)))
+		return nil
+	})
+	return fmt.Sprintf("(%s, %d)", corr.List(items), walErrCode(err))
+}
+
+// walBigCase: append recs one AppendRecords call each (a 64 MiB payload is built, written and
+// dropped before the next one), Close, Replay, VerifyDir, Open, append recs2, Sync, Replay.
+func walBigCase(c *corr.Ctx, root string, d walDesc) (corr.Case, error) {
+	dir, err := os.MkdirTemp(root, "big")
+	if err != nil {
+		return corr.Case{}, err
+	}
+	defer os.RemoveAll(dir)
+	m, err := wal.Open(wal.Config{Dir: dir, SegmentSize: d.Seg, BufferSize: 4096})
+	if err != nil {
+		return corr.Case{}, err
+	}
+	var infos []wal.EntryInfo
+	maxLen := 0
+	for _, r := range d.Recs {
+		is, err := m.AppendRecords(wal.Record{Type: wal.RecordType(r.Ty), Payload: r.payload()})
+		if err != nil {
+			return corr.Case{}, err
+		}
+		infos = append(infos, is...)
+		if r.N > maxLen {
+			maxLen = r.N
+		}
+	}
+	if err := m.Close(); err != nil {
+		return corr.Case{}, err
+	}
+	m, err = wal.Open(wal.Config{Dir: dir, SegmentSize: d.Seg, BufferSize: 4096})
+	if err != nil {
+		return corr.Case{}, err
+	}
+	obs1 := bigReplayObs(m)
+	if err := m.Close(); err != nil {
+		return corr.Case{}, err
+	}
+	verr := walErrCode(wal.VerifyDir(dir, nil))
+	m, err = wal.Open(wal.Config{Dir: dir, SegmentSize: d.Seg, BufferSize: 4096})
+	if err != nil {
+		return corr.Case{}, err
+	}
+	var infos2 []wal.EntryInfo
+	for _, r := range d.Recs2 {
+		is, err := m.AppendRecords(wal.Record{Type: wal.RecordType(r.Ty), Payload: r.payload()})
+		if err != nil {
+			return corr.Case{}, err
+		}
+		infos2 = append(infos2, is...)
+	}
+	if err := m.Sync(); err != nil {
+		return corr.Case{}, err
+	}
+	obs2 := bigReplayObs(m)
+	if err := m.Close(); err != nil {
+		return corr.Case{}, err
+	}
+	term := fmt.Sprintf("Cb %d %s %s %s %d %s %s %s", d.Seg, bigRecsTerm(d.Recs), infosTerm(infos), obs1, verr,
+		bigRecsTerm(d.Recs2), infosTerm(infos2), obs2)
+	switch {
+	case maxLen >= 64<<20:
+		c.Count("big_record_above_64MiB")
+	case maxLen >= 16<<20:
+		c.Count("big_record_16MiB_to_64MiB")
+	default:
+		c.Count("big_record_1MiB_class")
+	}
+	d.Big = true
+	return corr.Case{Coq: term, Nontrivial: true, Desc: d}, nil
+}
+
+// bigShapes: payload sizes around every constant the read path knows: kv.ReadBounded's 1 MiB
+// preallocation cap (length = payload+1), the default 256 KiB reader buffer, 16 MiB, the default
+// 64 MiB segment size, and a record that needs its own oversize segment under any configuration.
+func bigShapes(tier string) [][]int {
+	const Mi = 1 << 20
+	quick := [][]int{{100, 64*Mi + 0, 7}} // length word = 64 MiB + 1
+	if tier != "thorough" {
+		return quick
+	}
+	return append(quick, [][]int{
+		{Mi - 2, Mi - 1, Mi, Mi + 1, 5},
+		{256<<10 - 9, 256 << 10, 256<<10 + 1},
+		{16*Mi - 1, 16 * Mi, 3},
+		{64*Mi - 2, 9},
+		{64*Mi - 1, 64 * Mi, 64*Mi + 1},
+		{0, 80 * Mi, 0},
+	}...)
+}
+
 func genSmallRecs(c *corr.Ctx, n int) []walRec {
 	sizes := []int{0, 0, 1, 2, 3, 4, 5, 7, 8, 9, 16, 31, 100}
 	rs := make([]walRec, n)
@@ -288,7 +422,7 @@ func genLargeRecs(c *corr.Ctx, i int) []walRec {
 
 func runWal(c *corr.Ctx) error {
 	c.Meta("run_module", "RunWal")
-	c.Meta("rule", "real wal.Manager (SegmentSize in {1,65536,100000}, i.e. effective 64KiB/100000; BufferSize 4096): append records (types incl. unknown ones, payload sizes 0..70000 incl. sizes that fill a segment exactly / exceed it) in random batches, Close, cut the newest segment, Replay (EntryInfo segment/offset/type + payload + error class), VerifyDir, Open, AppendRecords, Sync, Replay. Small logs: every cut offset of the final segment; large multi-segment logs: all offsets within 6 bytes of a record boundary plus random ones. non-trivial = the cut falls strictly inside a record, or the log spans several segments")
+	c.Meta("rule", "real wal.Manager (SegmentSize in {1,65536,100000}, i.e. effective 64KiB/100000; BufferSize 4096): append records (types incl. unknown ones, payload sizes 0..70000 incl. sizes that fill a segment exactly / exceed it) in random batches, Close, cut the newest segment, Replay (EntryInfo segment/offset/type + payload + error class), VerifyDir, Open, AppendRecords, Sync, Replay. Small logs: every cut offset of the final segment; large multi-segment logs: all offsets within 6 bytes of a record boundary plus random ones. non-trivial = the cut falls strictly inside a record, or the log spans several segments. Oversize records (the append path has no maximum below the 32-bit length word): one log with a record whose length word is 64 MiB + 1 in the quick tier; in the thorough tier payload sizes around the 1 MiB preallocation cap of kv.ReadBounded, the 256 KiB reader buffer, 16 MiB, 64 MiB - 2 .. 64 MiB + 1 and 80 MiB, under segment sizes default/64 KiB/100000; payloads are a byte pattern compared in full by the harness and carried symbolically (length + pattern start) to the Coq side, positions compared with the model's length-only placement")
 	root, err := os.MkdirTemp(os.Getenv("VERIF_TMP"), "walfam")
 	if err != nil {
 		return err
@@ -306,6 +440,14 @@ func runWal(c *corr.Ctx) error {
 			if err := json.Unmarshal(b, &d); err != nil {
 				return err
 			}
+			if d.Big {
+				cs, err := walBigCase(c, root, d)
+				if err != nil {
+					return err
+				}
+				c.Emit(cs)
+				continue
+			}
 			base, err := buildBase(c, root, d.Seg, d.Recs)
 			if err != nil {
 				return err
@@ -317,6 +459,21 @@ func runWal(c *corr.Ctx) error {
 			c.Emit(cs)
 		}
 		return nil
+	}
+
+	// oversize records first (symbolic payloads; seconds each, no cost on the Coq side)
+	for i, sh := range bigShapes(c.Tier) {
+		var recs []walRec
+		for _, n := range sh {
+			recs = append(recs, walRec{Ty: uint8(c.Rng.Intn(5)), N: n, S: c.Rng.Intn(256)})
+		}
+		seg := []int64{0, 65536, 100000}[i%3] // 0 = the default 64 MiB segment size
+		d := walDesc{Seg: seg, Recs: recs, Cut: -1, Recs2: []walRec{{Ty: 2, N: 33, S: 7}}}
+		cs, err := walBigCase(c, root, d)
+		if err != nil {
+			return err
+		}
+		c.Emit(cs)
 	}
 
 	var small, large []corr.Case
